@@ -19,6 +19,7 @@ structure Preserved (P : St → Prop) : Prop where
   setFinal : ∀ st, P st → P st.setFinal
   newScope : ∀ st k, P st → P (st.newScope k).1
   globalDecl : ∀ st ns, P st → P (st.globalDecl ns)
+  nonlocalDecl : ∀ st ns, P st → P (st.nonlocalDecl ns)
   addReturn : ∀ st, P st → P st.addReturn
   flowAttr : ∀ st x, P st → P { st with flowAttrs := x :: st.flowAttrs }
   attrAssign : ∀ st x, P st → P { st with attrAssigns := x :: st.attrAssigns }
@@ -82,6 +83,7 @@ theorem execInstr_preserves (hP : Preserved P) (lines : List Text.Str) {rec : Re
   | flowAttr p id f => simp only [execInstr, pure_ok_iff] at h; subst h; exact hP.flowAttr _ _ hp
   | attrAssign p => simp only [execInstr, pure_ok_iff] at h; subst h; exact hP.attrAssign _ _ hp
   | globalDecl ns => simp only [execInstr, pure_ok_iff] at h; subst h; exact hP.globalDecl _ _ hp
+  | nonlocalDecl ns => simp only [execInstr, pure_ok_iff] at h; subst h; exact hP.nonlocalDecl _ _ hp
   | addReturn => simp only [execInstr, pure_ok_iff] at h; subst h; exact hP.addReturn _ hp
   | addImport x => simp only [execInstr, pure_ok_iff] at h; subst h; exact hP.addImport _ _ hp
   | addStar a b c => simp only [execInstr, pure_ok_iff] at h; subst h; exact hP.addStar _ _ hp
@@ -197,9 +199,10 @@ theorem allSorted_preserved : Preserved AllSorted where
     simp only [St.addName] at hfr
     split at hfr
     · exact h fr hfr
-    · rcases mem_modifyAt hfr with hfr | ⟨y, hy, rfl⟩
-      · exact h fr hfr
-      · exact insertLoc_sortedByLoc _ _ (h y hy)
+    · split at hfr <;>
+      · rcases mem_modifyAt hfr with hfr | ⟨y, hy, rfl⟩
+        · exact h fr hfr
+        · exact insertLoc_sortedByLoc _ _ (h y hy)
   compName := by
     intro st f b h fr hfr
     simp only [St.compName] at hfr
@@ -220,6 +223,7 @@ theorem allSorted_preserved : Preserved AllSorted where
     · exact h f hf
     · subst hf; rfl
   globalDecl := fun _ _ h => h
+  nonlocalDecl := fun _ _ h => h
   addReturn := fun _ h => h
   flowAttr := fun _ _ h => h
   attrAssign := fun _ _ h => h
@@ -241,12 +245,15 @@ theorem hasFlow_preserved (k : Option Pos × String) : Preserved (fun st => st.h
   addName := by
     intro st f b h
     simp only [St.addName]
-    split <;> exact h
+    split
+    · exact h
+    · split <;> exact h
   compName := fun _ _ _ h => h
   addLoop := fun _ _ _ h => h
   setFinal := fun _ h => h
   newScope := fun _ _ h => h
   globalDecl := fun _ _ h => h
+  nonlocalDecl := fun _ _ h => h
   addReturn := fun _ h => h
   flowAttr := by
     intro st x ⟨f, hf⟩
